@@ -267,6 +267,74 @@ def run(ctx):
         if bad and reported < 10 and bad[:30] not in seen:
             seen.add(bad[:30]); reported += 1
             ctx.violation('independent dissector: ' + bad, '=== replay\n' + '\n'.join(lines) + '\n--- ' + bad + '\n--- C++ output\n' + '\n'.join(l[:300] for l in lh[-2:]) + '\n')
+    # (6) MPLS label stacks under Ethernet (RFC 3032): EtherType 0x8847, the bottom-of-stack bit on the last label and only there,
+    #     whatever follows (IPv4, IPv6, a raw payload, nothing); labels and TTLs as set
+    ms = []
+    for i in range(80 if quick else 1500):
+        k = rng.randrange(1, 4)
+        labels = [(rng.randrange(1 << 20), rng.randrange(256)) for _ in range(k)]
+        tail = rng.choice([['push IP', 'set %d src_addr 167772161' % (k + 1), 'push UDP', 'raw x0102030405'], ['push IPv6', 'push UDP', 'raw x01'],
+                           ['raw x' + bytes(rng.randrange(256) for _ in range(rng.choice([1, 4, 46]))).hex()], []])
+        lines = ['new EthernetII'] + ['push MPLS'] * k
+        for j, (lb, ttl) in enumerate(labels):
+            lines += ['set %d label %d' % (j + 1, lb), 'set %d ttl %d' % (j + 1, ttl)]
+        lines += tail + ['ser']
+        ms.append(('m%d' % i, lines, labels))
+    mh = C.run_harness('h_pkt', [(sid, lines) for sid, lines, _ in ms])
+    ctx.cov['evaluations'] += len(ms)
+    for sid, lines, labels in ms:
+        lh = [l for l in mh.get(sid, []) if not l.startswith('!~')]
+        bad = None
+        if not lh or not lh[-1].startswith('S '):
+            bad = 'EthernetII/MPLS x %d: %s' % (len(labels), (lh[-1] if lh else '<none>')[:80])
+        else:
+            y = bytes.fromhex(lh[-1].split()[2][1:])
+            ents = [_st.unpack('>I', y[14 + 4 * j:18 + 4 * j])[0] for j in range(len(labels))]
+            if y[12:14] != b'\x88\x47':
+                bad = 'MPLS under Ethernet goes out with EtherType 0x%s' % y[12:14].hex()
+            elif [((e >> 12), e & 0xff) for e in ents] != labels:
+                bad = 'MPLS labels / TTLs on the wire %s, set %s' % ([((e >> 12), e & 0xff) for e in ents], labels)
+            elif [(e >> 8) & 1 for e in ents] != [0] * (len(labels) - 1) + [1]:
+                bad = 'MPLS bottom-of-stack bits on the wire %s for a stack of %d labels followed by %s' % ([(e >> 8) & 1 for e in ents], len(labels), (lines[1 + len(labels) + 2 * len(labels)] if len(lines) > 2 + 3 * len(labels) else 'nothing'))
+            else:
+                nontriv.add(tuple(lines))
+        if bad and reported < 12 and bad[:30] not in seen:
+            seen.add(bad[:30]); reported += 1
+            ctx.violation('independent dissector: ' + bad, '=== replay\n' + '\n'.join(lines) + '\n--- ' + bad + '\n--- C++ output\n' + '\n'.join(l[:300] for l in lh[-2:]) + '\n')
+    # (7) an object that was serialized (or parsed) in front of one network layer and is then given another one: the next-protocol
+    #     tag must follow the layer that is there NOW (EtherType of Ethernet II, 802.1Q, SLL; protocol of Loopback)
+    rs = []
+    inner = {'IP': (['set %d src_addr 167772161'], 'ip'), 'IPv6': ([], 'ipv6'), 'ARP': ([], 'arp')}
+    for i in range(60 if quick else 900):
+        outer = rng.choice([['EthernetII'], ['EthernetII', 'Dot1Q'], ['SLL'], ['Loopback'], ['EthernetII', 'Dot1Q', 'Dot1Q']])
+        a_, b_ = rng.sample([k for k in inner if not (outer == ['Loopback'] and k == 'ARP')], 2)
+        k = len(outer)
+        lines = ['new ' + outer[0]] + ['push ' + o for o in outer[1:]]
+        lines += ['push ' + a_] + [x % k for x in inner[a_][0]] + (['push UDP', 'raw x0102'] if a_ != 'ARP' else []) + ['ser', 'cut %d' % (k - 1)]
+        lines += ['push ' + b_] + [x % k for x in inner[b_][0]] + (['push UDP', 'raw x0304'] if b_ != 'ARP' else []) + ['ser']
+        rs.append(('r%d' % i, lines, outer, b_))
+    rh = C.run_harness('h_pkt', [(sid, lines) for sid, lines, _, _ in rs])
+    ctx.cov['evaluations'] += len(rs)
+    names5 = {'EthernetII': 'eth', 'Dot1Q': 'dot1q', 'SLL': 'sll', 'Loopback': 'loopback'}
+    for sid, lines, outer, b_ in rs:
+        lh = [l for l in rh.get(sid, []) if not l.startswith('!~')]
+        bad = None
+        if not lh or not lh[-1].startswith('S '):
+            bad = '%s re-used in front of %s: %s' % ('/'.join(outer), b_, (lh[-1] if lh else '<none>')[:80])
+        else:
+            y = bytes.fromhex(lh[-1].split()[2][1:])
+            layers, probs = D.dissect(names5[outer[0]], y)
+            seenl = [n for n, _ in layers if n not in ('raw', 'ipv6ext')]
+            want = [names5[o] for o in outer] + [inner[b_][1]] + (['udp'] if b_ != 'ARP' else [])
+            if seenl != want:
+                bad = 'after being serialized in front of another layer, %s in front of %s is dissected as %s (a next-protocol tag was not refreshed)' % ('/'.join(outer), b_, seenl)
+            elif probs:
+                bad = '%s re-used in front of %s: %s' % ('/'.join(outer), b_, probs[0])
+            else:
+                nontriv.add(tuple(lines))
+        if bad and reported < 14 and bad[:30] not in seen:
+            seen.add(bad[:30]); reported += 1
+            ctx.violation('independent dissector: ' + bad, '=== replay\n' + '\n'.join(lines) + '\n--- ' + bad + '\n--- C++ output\n' + '\n'.join(l[:300] for l in lh[-2:]) + '\n')
     ctx.cov['distinct_nontrivial'] = len(nontriv)
     ctx.cov['traces_validated_against_impl'] = len(sums)
     ctx.cov['rule'] = ('(1) byte strings aimed at the folding boundaries (all-ones, alternating, odd lengths) through Utils::sum_range / crc32 against the model and independent references; '
